@@ -3,6 +3,8 @@ import Sekai.Gen.Ambient
 import Sekai.Model.Perm
 import Sekai.Model.Gov
 import Sekai.Model.Stake
+import Sekai.Gen.App
+import Sekai.Model.App
 /-! # C01 — Replicated execution is deterministic
 
 * `run_env_irrelevant`: if no handler reads the environment, every run of every block history gives the same
@@ -99,5 +101,18 @@ theorem pb_map_fields_as_reviewed : Sekai.Gen.Ambient.pbMapFields = [
     ("x/gov/types/query.pb.go", "QueryAllProposalDurationsResponse", "ProposalDurations"),
     ("x/slashing/types/query.pb.go", "IdentityRecord", "Infos"),
     ("x/tokens/types/query.pb.go", "TokenInfosByDenomResponse", "Data")] := by decide +kernel
+
+/-! ### Application wiring (table `Gen.App`, regenerated from app/app.go and app/ante/ante.go on every run) -/
+
+/-- The ante chain, the Begin/EndBlocker orders, the genesis order and the proposal router are literal lists in the
+source (the extractor emits an `unrecognised` row for anything conditional or computed), and no module appears twice
+in an order: the sequence in which decorators and modules run is a function of the source alone, the same on every
+replica. -/
+theorem wiring_is_static :
+    (Sekai.App.recognised Sekai.Gen.App.anteChain && Sekai.App.recognised Sekai.Gen.App.beginOrder && Sekai.App.recognised Sekai.Gen.App.endOrder &&
+     Sekai.App.recognised Sekai.Gen.App.initOrder && Sekai.App.recognised Sekai.Gen.App.proposalHandlers &&
+     Sekai.App.recognised (Sekai.Gen.App.maccPerms.map (·.1)) &&
+     Sekai.Gen.App.beginOrder.all (Sekai.App.once Sekai.Gen.App.beginOrder) && Sekai.Gen.App.endOrder.all (Sekai.App.once Sekai.Gen.App.endOrder) &&
+     Sekai.Gen.App.initOrder.all (Sekai.App.once Sekai.Gen.App.initOrder)) = true := by decide +kernel
 
 end Sekai.Props.C01
